@@ -322,6 +322,32 @@ func checkC15(c *Ctx) {
 			coreOK = core != nil
 		}
 	}
+	if !coreOK {
+		// the closure may be made by a helper called for this request (h.coreHandlerFor(session)): every result of the
+		// helper is a closure created in it
+		if kc, ok := ir.Unwrap(buildCall.Call.Args[len(buildCall.Call.Args)-1]).(*ssa.Call); ok {
+			if k := ir.StaticCallee(kc); k != nil && c.P.IsLib(k) && k.Blocks != nil {
+				all, any := true, false
+				for _, blk := range k.Blocks {
+					ret, ok := blk.Instrs[len(blk.Instrs)-1].(*ssa.Return)
+					if !ok || blk == k.Recover || len(ret.Results) != 1 {
+						continue
+					}
+					any = true
+					rv := ir.Results(ret)[0]
+					if ct, ok := rv.(*ssa.ChangeType); ok {
+						rv = ct.X
+					}
+					if mc, ok := rv.(*ssa.MakeClosure); ok {
+						core, _ = mc.Fn.(*ssa.Function)
+					} else {
+						all = false
+					}
+				}
+				coreOK = any && all && core != nil
+			}
+		}
+	}
 	c.R.Check(coreOK, "R-once-through", en+": per-request core handler", c.Pos(buildCall.Pos()), "the chain wraps a closure created for this request",
 		sprintf("%s builds the chain around something other than a closure created for this request", en))
 
